@@ -314,7 +314,7 @@ Proof.
   unfold new_instance.
   set (pc := pc_new _ _ _ _ _ _ _ _).
   pose proof (fresh_object_first_message (c_num (n_cfg n)) (salt_for salts (c_num (n_cfg n)) src) (ni_encode (create_node_info n))
-                (c_key (n_cfg n)) (c_trusted (n_cfg n)) (c_algos (n_cfg n)) ((c_num (n_cfg n) * 2 ^ 20 + (n_objs n + 1)) * 2 ^ 40 + 1) (zeros 6) m) as F.
+                (c_key (n_cfg n)) (eff_trusted (n_cfg n)) (c_algos (n_cfg n)) ((c_num (n_cfg n) * 2 ^ 20 + (n_objs n + 1)) * 2 ^ 40 + 1) (zeros 6) m) as F.
   fold pc in F. cbn zeta in F.
   destruct (pc_handle payload_ok pc (WInit m)) as [[pc' r] reply]. cbn [fst snd] in F.
   destruct r as [res|e|s].
